@@ -220,14 +220,20 @@ def check_C10(sc, v, tier, seed, replay):
     sc.build(["rec-nassec"])
     r = sc.run("rec-nassec", ["dlmsgs", seed, 60])
     msgs = json.loads(r.stdout.strip().splitlines()[-1])
+    longs, msgs = msgs[:6], msgs[6:]
     pairs = [(0, 2), (1, 2), (2, 2), (0, 1), (1, 1), (2, 1)]
-    nh, steps = (8, 24) if tier == "quick" else (48, 400)
+    W = (1 << 24) - 6
+    # (algorithm pair, start COUNT) fixed per history: every ciphering algorithm crosses 2^24, 2^16 and 2^8 under both integrity
+    # algorithms' histories in every seed
+    plan = [((0, 2), 0), ((1, 2), W), ((2, 2), W), ((0, 1), 65530), ((1, 1), W), ((2, 1), W), ((1, 2), 250), ((2, 2), 65530),
+            ((1, 1), 0), ((2, 1), 250), ((0, 2), W), ((2, 2), rnd.randrange(1 << 24))]
+    nh, steps = (12, 24) if tier == "quick" else (48, 400)
     lines, idn = [], 0
     for h in range(nh):
-        enc, integ = pairs[h % 6]
-        dl0 = [0, 250, 65530, (1 << 24) - 6, 0, rnd.randrange(1 << 24), 250, (1 << 24) - 6][h % 8]
-        if h >= 8:
-            dl0 = rnd.choice([0, 0, 250, 65530, (1 << 24) - 6, rnd.randrange(1 << 24)])
+        (enc, integ), dl0 = plan[h % 12]
+        if h >= 12:
+            enc, integ = pairs[(h + seed) % 6]
+            dl0 = rnd.choice([0, 0, 250, 65530, W, rnd.randrange(1 << 24)])
         lines.append({"ev": "Start", "id": idn, "hist": h, "enc": enc, "int": integ,
                       "kenc": [rnd.randrange(256) for _ in range(16)], "kint": [rnd.randrange(256) for _ in range(16)], "dl": dl0, "ul": 0})
         idn += 1
@@ -241,7 +247,11 @@ def check_C10(sc, v, tier, seed, replay):
                 hdr = [3, 4][h % 2]       # a new security context in the middle of every history, integrity-only and ciphered in turn
             if s in (5, 6, 7):
                 skip = [126, 127, 128][s - 5]
-            lines.append({"ev": "Msg", "id": idn, "hist": h, "hdr": hdr, "skip": skip, "plain": rnd.choice(msgs)})
+            plain = rnd.choice(msgs)
+            if s in (2, 9):
+                # long messages (more than 255 octets, several keystream blocks) at fixed steps; the 4100-octet one in the thorough tier
+                plain = longs[(h + (0 if s == 2 else 3)) % (5 if tier == "quick" else 6)]
+            lines.append({"ev": "Msg", "id": idn, "hist": h, "hdr": hdr, "skip": skip, "plain": plain})
             idn += 1
     skel = os.path.join(sc.work, "dlskel.ndjson")
     open(skel, "w").write("\n".join(json.dumps(x) for x in lines) + "\n")
